@@ -322,15 +322,6 @@ Definition wf_response (hs : list header) : bool :=
   && match value_of (bs ":status") hs with Some v => is_some (status_value v) | None => false end.
 
 (* ---------------- known deviations of the unchanged code (open findings) ---------------- *)
-(* K1: http2_process.rs looks the LOWERCASED name up in lists whose entries are capitalised, so no
-   header is ever optional ("?name") or value-less: user-agent, host, cache-control, date, server,
-   content-type, ... are rendered name=[value] *)
-Definition k_lists (is_request : bool) (hs : list header) : bool :=
-  let optional := if is_request then request_optional_headers else response_optional_headers in
-  let skip := if is_request then request_skip_value_headers else response_skip_value_headers in
-  existsb (fun h => negb (is_pseudo_name (fst h))
-                    && negb (is_request && (name_is (bs "cookie") h || name_is (bs "referer") h))
-                    && (ci_in (fst h) optional || ci_in (fst h) skip)) hs.
-(* K2: the crate's static table has "accept-" at index 15 (RFC 7541: accept-charset) *)
+(* K1: the crate's static table has "accept-" at index 15 (RFC 7541: accept-charset) *)
 Definition k_static15 (items : list item) : bool :=
   existsb (fun it => match it with IIndexed idx _ _ | ILitIdx _ idx _ _ _ => idx =? 15 | _ => false end) items.
